@@ -3,7 +3,7 @@ keeping a local alive across the re-entrant call, compiled under every (version,
 
   kinds     : plain-value (Subroutine(uint64)) | plain-none (Subroutine(none), result through a shared slot) |
               abi-output (ABIReturnSubroutine with `output`) | abi-void (ABIReturnSubroutine without result, shared slot)
-  locals    : ScratchVar | abi.Uint64 temp (a frame cell when frame pointers are on)
+  locals    : ScratchVar | abi.Uint64 temp (a frame cell when frame pointers are on) | ScratchVar that is also passed by reference to a helper
   shape     : A(n) = 1 if n == 0 else B(n-1) + (3n+1)       B(n) = 2 if n == 0 else 2*A(n-1) + (n+5)
               the addend is computed and stored BEFORE the call and read AFTER it, so it must survive the recursion
   self      : the same with A calling itself (A(n) = 1 if n == 0 else A(n-1) + (3n+1))
@@ -15,7 +15,7 @@ TEAL of every setting must keep stack / type discipline (spec/tealcheck).
 import itertools
 
 KINDS = ("plain-value", "plain-none", "abi-output", "abi-void")
-LOCALS = ("scratchvar", "abi-temp")
+LOCALS = ("scratchvar", "abi-temp", "scratchvar-byref")
 DEPTHS = (0, 1, 2, 3, 5)
 
 
@@ -46,6 +46,10 @@ def build(pt, abi, ka, kb, local_kind, self_rec):
         tmp = abi.Uint64()
         return pt.Seq(tmp.set(f(arg)), tmp.get())
 
+    @pt.Subroutine(pt.TealType.none)
+    def bump(r: pt.ScratchVar):
+        return r.store(r.load() + pt.Int(1))
+
     def body(which, n, out):
         other = "A" if (which == "B" or self_rec) else "B"
         if which == "A":
@@ -55,6 +59,10 @@ def build(pt, abi, ka, kb, local_kind, self_rec):
         if local_kind == "scratchvar":
             t = pt.ScratchVar(pt.TealType.uint64)
             keep, read = t.store(addend), t.load()
+        elif local_kind == "scratchvar-byref":
+            # the local's index is also handed to a (non-recursive) helper before the re-entrant call: it is still this routine's own cell
+            t = pt.ScratchVar(pt.TealType.uint64)
+            keep, read = pt.Seq(t.store(addend), bump(t)), t.load() - pt.Int(1)
         else:
             t = abi.Uint64()
             keep, read = t.set(addend), t.get()
